@@ -1,7 +1,8 @@
 """C06 — retries bounded, policy conforming, every query terminates, no UB in the timeout maths."""
 from lib import *  # noqa
 
-TECHNIQUE = "call-site census of (re)transmission points + budget-guard dominance + 'protocol resend disables its own guard' table + clamp-pattern ordering and interval bound on every variable shift"
+TECHNIQUE = ("call-site census of (re)transmission points + budget-guard dominance + 'protocol resend disables its own guard' table + clamp-pattern ordering and interval bound on every variable shift"
+             ", call-graph cycle detection through the (re)transmission functions")
 LEVEL_TEXT = ("static: decides that every transmission of a query is either charged to the servers x tries budget (tested before every retry) "
               "or is one of the three enumerated protocol resends, each preceded on every path by the state change that prevents its own "
               "repetition; that the exhausted-budget path completes the query; that floor/cap clamps of the timeout computations are present, "
